@@ -113,6 +113,7 @@ func run(c *fw.Ctx) {
 			c.Hang("store-operation", "a history did not finish within the watchdog (configuration "+configs[i%len(configs)].String()+")", dump)
 		}
 	})
+	c.Cases("lostfile", c.N(96, 1440), func(i int, r *fw.Rand) { runLostFile(c, i, r) })
 }
 
 var weights = c07.Weights{Add: 56, Get: 5, Latest: 3, List: 2, Seen: 4, Remove: 21, Purge: 5, Visit: 4}
